@@ -243,6 +243,15 @@ fn ops_for(m: &Model, max_nest: usize, quick: bool) -> Vec<Op> {
             });
         }
         ops.push(Op { name: "magic".into(), src: "5 magic".into(), exp: Expect::Fail, next: None });
+        // the pattern is read from the input itself (a slice that does not start at bit 0 of its buffer)
+        if rem >= 24 && rest[8..16] == rest[16..24] {
+            ops.push(Op {
+                name: "magic-slice".into(),
+                src: "8 bits drop 8 bits magic".into(),
+                exp: Expect::Ok { push: vec![Want::Bits(rest[16..24].to_vec())], rel: cur.rel + 24 },
+                next: Some(moved(24)),
+            });
+        }
     }
     // ---- seek (absolute positions in the coordinates `offset` reports)
     {
@@ -639,7 +648,7 @@ pub fn run(cfg: &Cfg) -> i32 {
     for c in caps {
         ev.cap(c);
     }
-    for need in ["bits:ok", "bits:fail", "bytes:fail", "uint:ok", "int:fail", "magic:ok", "magic:fail", "seek:ok", "seek:fail", "find:ok", "nulbytestr:ok", "cstr:ok", "close:ok", "close-empty:fail", "open-slice:ok", "open-two:ok", "float:ok", "fN:ok"] {
+    for need in ["bits:ok", "bits:fail", "bytes:fail", "uint:ok", "int:fail", "magic:ok", "magic:fail", "seek:ok", "seek:fail", "find:ok", "nulbytestr:ok", "cstr:ok", "close:ok", "close-empty:fail", "open-slice:ok", "open-two:ok", "magic-slice:ok", "float:ok", "fN:ok"] {
         if fam.get(need).copied().unwrap_or(0) == 0 && !rep.has_unknown() {
             vacuous(&format!("vacuous: no transition of class {}", need));
         }
